@@ -2,8 +2,8 @@
    these definitions of /repo; tools/srcfacts.py regenerates their normal-form digests on every run (coq/Gen/Src_*.v).
    Statements only. *)
 From Coq Require Import List String.
-From ME Require Import Model.SrcExpected Gen.Src_bind Gen.Src_wrap Gen.Src_wrapped Gen.Src_executors
-  Proofs.Src_ok_bind Proofs.Src_ok_wrap Proofs.Src_ok_wrapped Proofs.Src_ok_executors.
+From ME Require Import Model.SrcExpected Gen.Src_bind Gen.Src_wrap Gen.Src_wrapped Gen.Src_executors Gen.Src_flat_map Gen.Src_map
+  Proofs.Src_ok_bind Proofs.Src_ok_wrap Proofs.Src_ok_wrapped Proofs.Src_ok_executors Proofs.Src_ok_flat_map Proofs.Src_ok_map.
 
 (* more_executors/_impl/bind.py *)
 Theorem c19_source_bind : Src_bind.facts = expected_bind.
@@ -17,8 +17,16 @@ Proof. exact src_wrapped_ok. Qed.
 (* more_executors/_impl/executors.py *)
 Theorem c19_source_executors : Src_executors.facts = expected_executors.
 Proof. exact src_executors_ok. Qed.
+(* more_executors/_impl/flat_map.py *)
+Theorem c19_source_flat_map : Src_flat_map.facts = expected_flat_map.
+Proof. exact src_flat_map_ok. Qed.
+(* more_executors/_impl/map.py *)
+Theorem c19_source_map : Src_map.facts = expected_map.
+Proof. exact src_map_ok. Qed.
 
 Print Assumptions c19_source_bind.
 Print Assumptions c19_source_wrap.
 Print Assumptions c19_source_wrapped.
 Print Assumptions c19_source_executors.
+Print Assumptions c19_source_flat_map.
+Print Assumptions c19_source_map.
